@@ -322,7 +322,9 @@ fn other_type(pt: PixelType, aux: u32) -> PixelType {
     if cfg!(miri) {
         // Miri gives Vec<u8> an alignment of 1, so `Image::new` of a 16/32-bit type is not constructible there
         // (it relies on the allocator over-aligning): a Miri artefact, not a verdict
-        return [PixelType::U8, PixelType::U8x2, PixelType::U8x3, PixelType::U8x4][aux as usize % 4];
+        let c = [PixelType::U8, PixelType::U8x2, PixelType::U8x3, PixelType::U8x4];
+        let k = aux as usize % 4;
+        return if c[k] == pt { c[(k + 1) % 4] } else { c[k] };
     }
     ALL_PT[(ALL_PT.iter().position(|&p| p == pt).unwrap() + 1 + (aux as usize % 12)) % 13]
 }
